@@ -14,7 +14,7 @@ LEVEL = "exploration"
 SHARDS = {"quick": 2, "thorough": 16}
 ROUTES = ["rpy/Quaternion", "rpy/QuaternionArray", "rpy/free", "axang/Quaternion", "axang/free", "axang/DCM",
           "explog/versor", "explog/nonversor", "power", "euler/DCM(euler=)", "euler/rot_seq", "euler/DCM(rpy=)",
-          "euler/DCM(x,y,z)", "euler/rotation", "DCM.log"]
+          "euler/DCM(x,y,z)", "euler/rotation", "DCM.log", "explog/reused object"]
 ANG_REGIONS = ["generic", "tiny", "small", "nearpi", "band", "zero"]
 REGIONS = {"rpy:generic": 60, "rpy:near_gimbal": 40, "rpy:small": 40}
 REGIONS.update({"rot:" + r: 60 for r in ANG_REGIONS})
@@ -230,6 +230,27 @@ def check_explog_pow(ctx, ax, th, sc, a, b, q, R):
                 if ctx.returned(o2, route=r, region=mech):
                     ctx.le("exp(log q) = q (non-versor)", np.abs(np.asarray(o2.value) - qn).max() / sc, 1e-7,
                            {"q": qn, "log": lg, "exp(log q)": np.asarray(o2.value)}, route=r, region=mech)
+    # --- one object read several times: exp, log and powers are functions of the quaternion, not of what was read before
+    r = "explog/reused object"
+    for nm, vec in (("versor", q), ("non-versor", qn), ("logarithm", np.r_[np.log(sc), ax * th / 2])):
+        if not np.any(vec[1:]):
+            continue
+        X = ahrs.Quaternion(vec.copy(), versor=False)
+        x0 = np.array(X, float)
+        reads = call(lambda: [np.array(getattr(X, g), float) for g in ("exponential", "logarithm", "exp", "log", "exponential", "logarithm")] +
+                     [np.array(X ** a, float), np.array(X.exponential, float), np.array(X ** a, float)])
+        if not ctx.returned(reads, route=r):
+            continue
+        e1, l1, e2, l2, e3, l3, p1_, e4, p2_ = reads.value
+        fresh = call(lambda: (np.array(ahrs.Quaternion(vec.copy(), versor=False).exponential, float), np.array(ahrs.Quaternion(vec.copy(), versor=False).logarithm, float),
+                              np.array(ahrs.Quaternion(vec.copy(), versor=False) ** a, float)))
+        if not ctx.returned(fresh, route=r):
+            continue
+        fe, fl, fp = fresh.value
+        ctx.le("every read of exp on one object equals exp of a fresh equal object", max(np.abs(x - fe).max() for x in (e1, e2, e3, e4)), 0.0, {"object": nm, "reads": [e1, e2, e3, e4], "fresh": fe}, route=r)
+        ctx.le("every read of log on one object equals log of a fresh equal object", max(np.abs(x - fl).max() for x in (l1, l2, l3)), 0.0, {"object": nm}, route=r)
+        ctx.le("q**a on an object already read equals q**a of a fresh equal object", max(np.abs(p1_ - fp).max(), np.abs(p2_ - fp).max()), 0.0, {"object": nm}, route=r)
+        ctx.le("reading exp / log / ** leaves the quaternion unchanged", np.abs(np.array(X, float) - x0).max(), 0.0, {"object": nm, "before": x0, "after": np.array(X, float)}, route=r)
     # --- powers
     r = "power"
     tolp = lambda e: 1e-7 * max(1.0, abs(e))  # noqa: E731
